@@ -44,7 +44,9 @@ type Event struct {
 type Exch struct {
 	Xfr    bool       `json:"xfr,omitempty"` // an AXFR request answered with Transfer.Out (two envelopes) on the same stream; the next exchange continues on it
 	Signed bool       `json:"signed"`
-	Reuse  bool       `json:"reuse_conn,omitempty"` // keep using the previous dns.Conn
+	Reuse  bool       `json:"reuse_conn,omitempty"`  // keep using the previous dns.Conn
+	Fresh  bool       `json:"fresh_state,omitempty"` // with Reuse: same stream, but a new dns.Conn around it (no TSIG state carried over on the client side)
+	SkewS  int        `json:"skew_s,omitempty"`      // this request is stamped that many seconds off the client's clock (an application that stamped it earlier, a stepped clock)
 	Recipe gen.Recipe `json:"recipe"`
 }
 
@@ -130,6 +132,10 @@ func Gen(seed uint64, tier string) any {
 			if core.Chance(r, 20) {
 				e.Xfr = true
 			}
+			e.Fresh = core.Chance(r, 50)
+			if core.Chance(r, 35) {
+				e.SkewS = core.Pick(r, -1, -2, -1-sc.Fudge/2, 1, sc.Fudge-1, -sc.Fudge, sc.Fudge+1, -sc.Fudge-1)
+			}
 			if i > 0 && sc.Exch[i-1].Xfr {
 				e.Reuse = true // carry on where the transfer left the stream
 			}
@@ -149,9 +155,12 @@ func Gen(seed uint64, tier string) any {
 		} else if sc.Transport == "tcp" && core.Chance(r, 55) {
 			nf := 1 + r.IntN(2)
 			for i := 0; i < nf; i++ {
-				op := common.FrameOp{Dir: core.Pick(r, "c2s", "s2c"), Env: r.IntN(n), Kind: core.Pick(r, "flip", "flip", "unsign", "wrongkey", "nokey", "delay", "dup")}
+				op := common.FrameOp{Dir: core.Pick(r, "c2s", "s2c"), Env: r.IntN(n), Kind: core.Pick(r, "flip", "flip", "unsign", "wrongkey", "nokey", "parentkey", "delay", "dup")}
 				if op.Kind == "flip" {
 					op.Region, op.Frac, op.Bit = core.Pick(r, "header", "flags", "flags", "question", "records", "tsig", "mac", "mac"), r.IntN(1000), r.IntN(8)
+				}
+				if op.Kind == "parentkey" {
+					op.Frac = r.IntN(2)
 				}
 				if op.Kind == "delay" {
 					op.DelayS = core.Pick(r, sc.Fudge-1, sc.Fudge, sc.Fudge+1, sc.Fudge+2)
@@ -906,7 +915,7 @@ func (c *sessClient) RunEvent(time.Time) {
 	dial := func() {
 		cli, relayC := s.n.Pair(false)
 		relayS := s.n.Dial(s.l, false)
-		r := &common.Relay{K: k, ToClient: relayC, ToServer: relayS, WrongSecret: secretBad, KeyName: keyName, Alg: sc.Alg}
+		r := &common.Relay{K: k, ToClient: relayC, ToServer: relayS, WrongSecret: secretBad, RightSecret: secretGood, KeyName: keyName, Alg: sc.Alg}
 		if len(s.relays) == 0 {
 			r.Ops = sc.Ops // the fault plan applies to the first connection
 		}
@@ -929,7 +938,7 @@ func (c *sessClient) RunEvent(time.Time) {
 				co.Close()
 			}
 			dial()
-		} else if i > 0 && sc.Exch[i-1].Xfr {
+		} else if i > 0 && (sc.Exch[i-1].Xfr || e.Fresh) {
 			co = &dns.Conn{Conn: co.Conn} // same stream, fresh client-side TSIG state
 		}
 		m := e.Recipe.Build()
@@ -939,7 +948,10 @@ func (c *sessClient) RunEvent(time.Time) {
 			m.Id = e.Recipe.ID
 		}
 		if e.Signed {
-			m.SetTsig(keyName, sc.Alg, uint16(sc.Fudge), time.Now().Unix()+int64(sc.SkewS))
+			m.SetTsig(keyName, sc.Alg, uint16(sc.Fudge), max(time.Now().Unix()+int64(sc.SkewS)+int64(e.SkewS), 1))
+			if e.SkewS != 0 {
+				k.Bump("fault.request_stamped_off_clock")
+			}
 		}
 		cl := &dns.Client{Net: "tcp", Timeout: time.Duration(maxDelay+30) * time.Second, TsigSecret: map[string]string{keyName: secretGood}}
 		if e.Xfr {
